@@ -128,7 +128,7 @@ func TestVerif(t *testing.T) {
 	floors := map[string]int{"A/apply/": 1000, "A/remove-empty": 50, "A/filter": 50, "T/tag": 50, "K/caps": 5, "M/callers=": 100, "S/stress": 20, "P/sequential": 40, "P/race-forced": 2,
 		"E/ops=": 100, "X/projected": 100, "Y/liveness": 80, "L/listing": 100, "D/decoration": 50, "E/same-manifest-overlap": 5,
 		"E/fault/idx-": 20, "E/outcome=idxdel": 3, "E/outcome=err": 10, "E/skipgc": 10, "E/subjects=2": 5, "E/subjects=3": 5,
-		"E/fault/idx-put/lost": 30, "E/fault/idx-del/lost": 30} // lost responses are model events (EPutLost): the projected lines are judged
+		"E/fault/idx-put/lost": 30, "E/fault/idx-del/lost": 30, "E/fault/man-put/lost": 10, "E/fault/man-del/lost": 10} // lost responses are model events (EPutLost): the projected lines are judged
 	if run.Thorough() {
 		floors["E/shared-index-drop"] = 20
 		floors["E/fault/man-"] = 20
@@ -570,7 +570,17 @@ func yLine(c *E2ECase, res *E2EResult, s int) (string, string, bool) {
 			}
 			specs = append(specs, fmt.Sprintf("%s%d:0:0", sign, o.Man+1))
 			if res.Ops[o.ID].Outcome == "err" {
-				z[o.Man+1] = true
+				// ... except a Delete whose final manifest DELETE took effect and was answered with
+				// an error: the model (LDel) says the manifest is gone and unlisted - judged
+				lostDel := false
+				for _, e := range res.Events {
+					if e.Op == o.ID && e.Class == "man-del" && e.Kind == "lost" {
+						lostDel = true
+					}
+				}
+				if !lostDel {
+					z[o.Man+1] = true
+				}
 			}
 		}
 	}
@@ -599,7 +609,11 @@ func yLine(c *E2ECase, res *E2EResult, s int) (string, string, bool) {
 		o := opByID(c, e.Op)
 		switch e.Class {
 		case "man-put", "man-get":
-			if e.Status < 400 && !e.Fail {
+			if e.Kind == "lost" {
+				// the manifest PUT took effect, the push returned the error: LPutLost of the model
+				evs = append(evs, fmt.Sprintf("Q%d", t))
+				z[o.Man+1] = true
+			} else if e.Status < 400 && !e.Fail {
 				entered[e.Op] = true
 				evs = append(evs, fmt.Sprintf("G%d", t))
 			} else {
@@ -612,7 +626,8 @@ func yLine(c *E2ECase, res *E2EResult, s int) (string, string, bool) {
 		case "idx-del":
 			evs = append(evs, fmt.Sprintf("D%d:%d", t, f))
 		case "man-del":
-			if e.Status < 400 && !e.Fail {
+			if (e.Status < 400 && !e.Fail) || e.Kind == "lost" {
+				// answered 202, or took effect and answered with an error: LDel of the model
 				evs = append(evs, fmt.Sprintf("M%d", t))
 			} else {
 				evs = append(evs, fmt.Sprintf("N%d", t)) // the manifest DELETE failed: operation over
